@@ -17,6 +17,9 @@
 //!   sw <fn> <be> <kind>:<bound> <start> <count> <stride> [<b>] -> <nexceed> <nbranchcut> <maxerr> <argmax bits> <n>
 //!   rsq <be> <a>                            -> <bits>                   recip_sqrt
 //!   rh <be> <x>                             -> <xs.start> <xs.end> <y> <nrows>   round_up_to_half via scan
+//!   tx <be> <rep|cl> <dw> <dh> <u> <v>      -> "<u>,<v>" | panic          texture addressing (sample_abs)
+//!   wrap <be> <a> <min> <max>               -> <bits>                    Angle::wrap (radians)
+//!   norm <be> <x> <y> <z>                   -> <bits> <bits> <bits>      Vec3::normalize
 //!   rs <op> <args…>                         -> Rust's own f32 semantics (validates Retro.Model.F32Ops)
 //!   drs <floor|i32|u32> <start> <count>     -> <fnv>
 use vharness::util::*;
@@ -195,6 +198,19 @@ fn run(t: &[&str]) -> String {
         "rh" => match t[1] {
             "std" => ops::rh(pf32(t[2])),
             be => ask(be, &format!("rh {}", t[2])),
+        },
+        // consequence ops: the same library code in every configuration
+        "tx" => match t[1] {
+            "std" => ops::tx(t[2], pint(t[3]) as u32, pint(t[4]) as u32, pf32(t[5]), pf32(t[6])),
+            be => ask(be, &format!("tx {} {} {} {} {}", t[2], t[3], t[4], t[5], t[6])),
+        },
+        "wrap" => match t[1] {
+            "std" => ops::wrap(pf32(t[2]), pf32(t[3]), pf32(t[4])),
+            be => ask(be, &format!("wrap {} {} {}", t[2], t[3], t[4])),
+        },
+        "norm" => match t[1] {
+            "std" => ops::norm(pf32(t[2]), pf32(t[3]), pf32(t[4])),
+            be => ask(be, &format!("norm {} {} {}", t[2], t[3], t[4])),
         },
         "rs" => {
             let f = |i: usize| pf32(t[i]);
@@ -535,6 +551,54 @@ fn gen(rng: &mut Rng, tier: Tier, out: &mut Vec<String>) {
         }
     }
 
+    // ---- consequence ops: texture addressing, angle wrapping, normalisation in every configuration
+    {
+        let nr = if thorough { 300 } else { 40 };
+        for be in ["std", "fallback", "libm", "mm"] {
+            for (smp, dw, dh) in [("rep", 4u32, 4u32), ("rep", 256, 2), ("rep", 1, 8), ("cl", 4, 4), ("cl", 3, 5)] {
+                if smp == "cl" && be == "fallback" {
+                    continue; // SamplerClamp is #[cfg(feature = "fp")]
+                }
+                let pu = tex_pool(rng, dw, nr);
+                let pv = tex_pool(rng, dh, nr);
+                for &u in &pu {
+                    out.push(format!("tx {be} {smp} {dw} {dh} {} {}", hu32(u), h32(rng.f32_in(-1.0, dh as f32 + 1.0))));
+                }
+                for &v in &pv {
+                    out.push(format!("tx {be} {smp} {dw} {dh} {} {}", h32(rng.f32_in(-1.0, dw as f32 + 1.0)), hu32(v)));
+                }
+            }
+        }
+        use core::f32::consts::{PI, TAU};
+        let ranges: [(f32, f32); 5] = [(-PI, PI), (0.0, TAU), (0.0, 360.0), (-180.0, 180.0), (-1.0, 3.0)];
+        for be in ["std", "libm", "mm"] {
+            for &(lo, hi) in &ranges {
+                let p = hi - lo;
+                let mut xs: Vec<f32> = vec![lo, hi, ulp_dn(lo), ulp_up(lo), ulp_dn(hi), ulp_up(hi), 0.0, -0.0, -1e-8, 1e-8, -0.5, 0.5];
+                for k in [-3.0f32, -2.0, -1.0, 1.0, 2.0, 3.0, 100.0, -100.0] {
+                    xs.extend([lo + k * p, hi + k * p, ulp_dn(lo + k * p), ulp_up(lo + k * p), lo + k * p + 0.25 * p]);
+                }
+                for _ in 0..(if thorough { 400 } else { 40 }) {
+                    xs.push(rng.f32_in(lo - 5.0 * p, hi + 5.0 * p));
+                }
+                for x in xs {
+                    out.push(format!("wrap {be} {} {} {}", h32(x), h32(lo), h32(hi)));
+                }
+            }
+        }
+        for be in ["std", "fallback", "libm", "mm"] {
+            let mut vs: Vec<[f32; 3]> = vec![[1.0, 0.0, 0.0], [0.0, -2.0, 0.0], [0.0, 0.0, 0.5], [3.0, 4.0, 0.0], [1.0, 1.0, 1.0],
+                [-1.0, 2.0, -3.0], [1e-10, 0.0, 0.0], [1e10, -1e10, 1e10], [1e-6, 1e-6, -1e-6], [123.0, -0.001, 45.6]];
+            for _ in 0..(if thorough { 2000 } else { 200 }) {
+                let s = [1.0f32, 1e-4, 1e4, 1e-9, 1e8][rng.below(5) as usize];
+                vs.push([rng.f32_in(-1.0, 1.0) * s, rng.f32_in(-1.0, 1.0) * s, rng.f32_in(-1.0, 1.0) * s]);
+            }
+            for v in vs {
+                out.push(format!("norm {be} {} {} {}", h32(v[0]), h32(v[1]), h32(v[2])));
+            }
+        }
+    }
+
     // ---- round_up_to_half through scan(), per configuration
     {
         let mut xs: Vec<f32> = vec![];
@@ -556,6 +620,24 @@ fn gen(rng: &mut Rng, tier: Tier, out: &mut Vec<String>) {
             }
         }
     }
+}
+
+/// Texture coordinates for an axis of size `w`: the classes where addressing bugs live – negative
+/// non-integers, tiny negatives, exactly-integer negatives, the seam, the i32 boundary, non-finite.
+fn tex_pool(rng: &mut Rng, w: u32, n_random: usize) -> Vec<u32> {
+    let wf = w as f32;
+    let mut v: Vec<f32> = vec![-0.5, -1e-8, -0.25, -0.75, -1.5, -2.5, -1.0, -2.0, -3.0, -wf, -wf + 0.5, -wf - 0.5, -2.0 * wf,
+        -2.0 * wf - 0.25, 0.0, -0.0, 0.5, 0.999_999_94, 1.0, wf - 0.5, ulp_dn(wf), wf, wf + 0.5, 2.0 * wf, 3.0 * wf + 0.25,
+        ulp_dn(0.0), ulp_up(-1.0), ulp_dn(-1.0), -1e-30, -f32::MIN_POSITIVE, 1e9, -1e9, 2147483520.0, 2147483648.0, -2147483648.0,
+        -2147483904.0, 1e30, -1e30, f32::INFINITY, f32::NEG_INFINITY, f32::NAN];
+    for _ in 0..n_random {
+        v.push(match rng.below(3) {
+            0 => rng.f32_in(-3.0 * wf, 3.0 * wf),
+            1 => rng.range(-4 * w as i64, 4 * w as i64) as f32,
+            _ => -rng.unit() * [1.0f32, 1e-3, 1e-6, 100.0][rng.below(4) as usize],
+        });
+    }
+    v.iter().map(|x| x.to_bits()).collect()
 }
 
 /// Block starts covering the 2^32 bit patterns: fixed landmarks plus `n_random` random blocks.
